@@ -149,6 +149,7 @@ def finish(prop, tier, seed, merged, driver, wall):
 def parent_main(prop, tier, seed):
     driver = load_driver(prop)
     t0 = time.time()
+    shutil.rmtree(os.path.join(core.HERE, "replays", prop), ignore_errors=True)  # witnesses of earlier runs would mislead
     jobs = int(os.environ.get("VERIF_JOBS", getattr(driver, "JOBS", DEFAULT_JOBS)[tier] if isinstance(getattr(driver, "JOBS", None), dict) else DEFAULT_JOBS[tier]))
     jobs = max(1, min(jobs, os.cpu_count() or 1))
     results = []
